@@ -430,7 +430,8 @@ def find_witness(pid, ob, r, mine, registry, lemmas, tier, seed):
 def write_replay(pid, ob, r, witness, smt2):
     d = os.path.join(VERIF, 'replays', pid)
     os.makedirs(d, exist_ok=True)
-    name = (ob.name if ob is not None else 'native.%s' % witness.get('contract', 'x'))
+    name = (ob.name if ob is not None else 'native.%s.%s.%s' % (witness.get('contract', 'x'), witness.get('case', ''),
+                                                                   witness.get('clause', '')))
     safe = ''.join(ch if ch.isalnum() or ch in '._-=' else '_' for ch in name)[:150]
     path = os.path.join(d, safe + '.json')
     data = {'property': pid, 'obligation': ob.name if ob is not None else None,
